@@ -427,7 +427,7 @@ func checkSioTimers(c SioTimerCase) (v ev.Verdict) {
 		}
 	}
 	// quiescence: deliver everything that is due
-	deadline := time.Now().Add(2500 * time.Millisecond)
+	deadline := time.Now().Add(6 * time.Second)
 	for h.bad == "" {
 		waiting := 0
 		for _, inc := range h.incs {
@@ -509,8 +509,15 @@ type LoopCase struct {
 func genLoop(t *rapid.T) LoopCase {
 	c := LoopCase{Messages: rapid.IntRange(0, 20).Draw(t, "msgs")}
 	for i := rapid.IntRange(1, 12).Draw(t, "n"); i > 0; i-- {
-		c.Timers = append(c.Timers, STOp{Kind: rapid.SampledFrom([]string{"make", "make", "make", "makeCancel"}).Draw(t, fmt.Sprintf("k%d", i)),
-			Id: fmt.Sprintf("t%d", i), DelayMs: rapid.SampledFrom([]int{0, 1, 1, 2, 5, 10}).Draw(t, fmt.Sprintf("d%d", i))})
+		op := STOp{Kind: rapid.SampledFrom([]string{"make", "make", "make", "makeCancel"}).Draw(t, fmt.Sprintf("k%d", i)),
+			Id: fmt.Sprintf("t%d", i), DelayMs: rapid.SampledFrom([]int{0, 1, 1, 2, 5, 10}).Draw(t, fmt.Sprintf("d%d", i))}
+		if op.Kind == "makeCancel" && op.DelayMs >= 5 {
+			// "cancelled long before it is due": long enough that no
+			// scheduling delay of the harness or the loop can let it fire
+			// before the cancel request is processed
+			op.DelayMs = 3000
+		}
+		c.Timers = append(c.Timers, op)
 	}
 	return c
 }
@@ -578,14 +585,14 @@ func checkLoop(c LoopCase) (v ev.Verdict) {
 	for i, op := range c.Timers {
 		send(map[string]interface{}{"to": "timers", "makeTimer": map[string]interface{}{
 			"in": fmt.Sprintf("%dms", op.DelayMs), "id": op.Id, "msg": map[string]interface{}{"to": "r", "timer": op.Id}}})
-		if op.Kind == "makeCancel" && op.DelayMs >= 5 {
+		if op.Kind == "makeCancel" && op.DelayMs >= 1000 {
 			send(map[string]interface{}{"to": "timers", "cancelTimer": op.Id})
 		} else if op.Kind == "makeCancel" {
 			expect[op.Id] = -1 // cancelled around its due time: 0 or 1 deliveries
 		} else {
 			expect[op.Id] = 1
 		}
-		if op.Kind == "makeCancel" && op.DelayMs < 5 {
+		if op.Kind == "makeCancel" && op.DelayMs < 1000 {
 			send(map[string]interface{}{"to": "timers", "cancelTimer": op.Id})
 		}
 		for sent < (i+1)*c.Messages/len(c.Timers) {
@@ -594,7 +601,7 @@ func checkLoop(c LoopCase) (v ev.Verdict) {
 		}
 	}
 	// wait until every expected message has arrived
-	deadline := time.Now().Add(3 * time.Second)
+	deadline := time.Now().Add(8 * time.Second)
 	for {
 		mu.Lock()
 		missing := 0
@@ -610,8 +617,20 @@ func checkLoop(c LoopCase) (v ev.Verdict) {
 		time.Sleep(2 * time.Millisecond)
 	}
 	time.Sleep(10 * time.Millisecond)
-	send(map[string]interface{}{"to": "r", "plain": "last"}) // flush a final report
-	time.Sleep(5 * time.Millisecond)
+	// flush reports until the reported timers state is empty (every
+	// timer was short or has been cancelled, so it has to become empty;
+	// how soon depends on the machine's load, so this is a bounded wait
+	// and not a fixed pause)
+	for flushUntil := time.Now().Add(6 * time.Second); ; {
+		send(map[string]interface{}{"to": "r", "plain": "last"})
+		time.Sleep(5 * time.Millisecond)
+		mu.Lock()
+		m, _ := lastTimers.(map[string]interface{})
+		mu.Unlock()
+		if len(m) == 0 || time.Now().After(flushUntil) {
+			break
+		}
+	}
 	cancel()
 	<-done
 	<-collected
@@ -629,7 +648,7 @@ func checkLoop(c LoopCase) (v ev.Verdict) {
 		}
 	}
 	for _, op := range c.Timers {
-		if op.Kind == "makeCancel" && op.DelayMs >= 5 && delivered[op.Id] > 0 {
+		if op.Kind == "makeCancel" && op.DelayMs >= 1000 && delivered[op.Id] > 0 {
 			v.Failf("timer %q was cancelled right after it was made (due in %d ms) and yet delivered", op.Id, op.DelayMs)
 			return
 		}
